@@ -6,6 +6,7 @@ mod machines;
 mod replay;
 mod tables;
 mod trace;
+mod world;
 
 use std::fs::File;
 use std::io::{BufWriter, Write};
@@ -130,6 +131,13 @@ fn main() {
                 serde_json::json!({"table": args[2], "sequences": rep.seqs.load(std::sync::atomic::Ordering::Relaxed),
                                    "calls": rep.steps.load(std::sync::atomic::Ordering::Relaxed), "mismatching_transitions": rep.count()})
             );
+        }
+        "replay-world" => {
+            // pkv replay-world <behaviours.ndjson> <layout name>
+            if args.len() < 4 {
+                usage();
+            }
+            world::replay(&args[2], &args[3]);
         }
         "cells" => {
             // re-evaluate layout cells: JSON array of [object, key, modifiers, mode]
